@@ -14,7 +14,7 @@ from vf.sim.scenario import Sim
 LEVEL = "exploration"
 RULE = ("scripts over 1-3 concurrent send_messages_await_response_complex calls (own or shared response types out of 3, timeouts 0.5/1/2 s, "
         "harness-owned accept/stop predicates keyed by bits in the message) with events {start call i (+ device replies emitted the moment the "
-        "request is received = readable in the very next loop turn), arrival(type, accept bits, stop bits), cancel call i, close(eof|garbage|force)} "
+        "request is received = readable in the very next loop turn), arrival(type, accept bits, stop bits), cancel call i, close(eof|garbage|force|peer DisconnectRequest; garbage and peer optionally in the same chunk as the answers before them)} "
         "and gaps {same instant, same chunk as the previous arrival (one TCP segment), +1 ms, exactly at call j's timeout instant}; instant replies optionally coalesced into one chunk; seeded random scripts, all orderings of small event sets at thorough; "
         "plus the public wrappers. Oracle: per-call sequential model over the recorded arrival history (process_packet order), exact timeout "
         "instant, connection's error at close, cancellation; leftovers after every ending: predicates never invoked after the call returned, "
@@ -117,7 +117,8 @@ def run_script(script: dict[str, Any]) -> dict[str, Any]:
 
         for ev in script["events"]:
             gap, kind = ev[0], ev[1]
-            if not (gap == "chunk" and kind == "arrive" and chunk):
+            in_chunk = gap == "chunk" and chunk and (kind == "arrive" or (kind == "close" and ev[2] in ("garbage", "peer")))
+            if not in_chunk:
                 flush()
             if gap == "ms":
                 t += 0.001
@@ -141,8 +142,14 @@ def run_script(script: dict[str, Any]) -> dict[str, Any]:
                 cause = ev[2]
                 if cause == "eof":
                     dconn.eof(t - sim.clock)
-                elif cause == "garbage":
-                    dconn.send_raw(b"\x42\x42\x42" if script["framing"] == "plain" else b"\x07\x00\x00", t - sim.clock)
+                elif cause in ("garbage", "peer"):
+                    item = ("raw", b"\x42\x42\x42" if script["framing"] == "plain" else b"\x07\x00\x00") if cause == "garbage" else \
+                        ("msg", dev.proto.id_of("DisconnectRequest"), b"")
+                    if in_chunk:
+                        chunk.append(item)      # the closing event shares the chunk with the answers in front of it
+                    else:
+                        flush()
+                        dconn.deliver_items([item], t - sim.clock)
                 elif cause == "force":
                     sim.at(t, lambda: conn.force_disconnect())
 
@@ -315,14 +322,17 @@ def gen_script(rng: Any, framing: str) -> dict[str, Any]:
         elif r < 0.9:
             events.append([gap, "cancel", rng.choice(sorted(started))])
         else:
-            events.append([gap, "close", rng.choice(["eof", "garbage", "force"])])
+            cause = rng.choice(["eof", "garbage", "force", "peer", "garbage", "peer"])
+            if cause in ("garbage", "peer") and events[-1][1] == "arrive" and rng.random() < 0.6:
+                gap = "chunk"
+            events.append([gap, "close", cause])
     return {"framing": framing, "calls": calls, "events": events, "coalesce": rng.random() < 0.5}
 
 
 def small_exhaustive() -> Any:
     """All orderings of a small event multiset after call 0 (two calls sharing a type)."""
     base_calls = [{"types": [0, 1], "timeout": 0.5, "instant": []}, {"types": [0], "timeout": 1.0, "instant": [(0, 2, 0)]}]
-    atoms = [["call", 1], ["arrive", 0, 3, 0], ["arrive", 0, 3, 1], ["arrive", 1, 1, 2], ["arrive", 0, 2, 2], ["cancel", 0], ["close", "eof"]]
+    atoms = [["call", 1], ["arrive", 0, 3, 0], ["arrive", 0, 3, 1], ["arrive", 1, 1, 2], ["arrive", 0, 2, 2], ["cancel", 0], ["close", "eof"], ["close", "peer"]]
     for k in (3, 4, 5):
         for combo in itertools.permutations(atoms, k):
             for gaps in itertools.product(("0", "ms", "chunk"), repeat=k) if k <= 3 else (itertools.product(("0", "chunk"), repeat=k) if k == 4 else [("0",) * k, ("ms",) * k, ("chunk",) * k]):
@@ -407,7 +417,7 @@ def shard(ctx: Ctx) -> None:
 
 def exhaustive(tier: str) -> Any:
     if tier == "thorough":
-        return ["all orderings of 3-5 events out of a 7-event alphabet (2 calls sharing a type), gaps {0, 1ms}^k for k<=4"]
+        return ["all orderings of 3-5 events out of an 8-event alphabet (2 calls sharing a type), gaps {0, 1ms}^k for k<=4"]
     return False
 
 
